@@ -172,7 +172,10 @@ def main():
     def pids_for(f, func):
         if f.endswith(".pyx"):
             return ["C15"]
-        m = anc[f]
+        m = dict(anc[f])
+        if "/decoder/bds/" in f:              # every Comm-B register module is exercised by C11 (fields) and C12 (format rules)
+            m.setdefault("C11", "")
+            m.setdefault("C12", "")
         hit = [p for p, text in m.items() if func and re.search(r"\b%s\b" % re.escape(func), text)]
         rest = [p for p in m if p not in hit]
         # properties whose anchors name the function first; among the others the generalists (C14, C15) come first: their
